@@ -1884,6 +1884,10 @@ class Signature:
                 param.annotation, TypedDictValue
             ):
                 for name, entry in param.annotation.items.items():
+                    if name in param_dict:
+                        # A key that repeats the name of a parameter can never be passed
+                        # through **kwargs (PEP 692); the explicit parameter stays.
+                        continue
                     param_dict[name] = SigParameter(
                         name,
                         ParameterKind.KEYWORD_ONLY,
